@@ -97,7 +97,7 @@ def T():
 def cases(tier, seed):
     if tier == 'quick':
         Ds, pats, reps = [1, 2, 3, 5, 8], ['random', 'zeros_high', 'last_only', 'x1_zero', 'alternating', 'big'], 1
-        Ps, shapes = [1, 2, 3], [(), (1,), (3,), (2, 2), (2, 1, 2), (1, 3)]
+        Ps, shapes = [1, 2, 3, 1, 2, 5], [(), (1,), (3,), (2, 2), (2, 1, 2), (1, 3)]
     else:
         Ds, pats, reps = [1, 2, 3, 4, 6, 8, 10, 12], gen.PATTERNS, 1
         Ps, shapes = [1, 2, 3, 4], [(), (1,), (3,), (2, 2), (2, 1, 2), (1, 3)]
